@@ -1,6 +1,7 @@
 package checks
 
 import (
+	"context"
 	"encoding/json"
 	"fmt"
 	"strings"
@@ -26,14 +27,25 @@ type item struct {
 }
 
 type c20Case struct {
-	Impl    string `json:"impl"` // native | ulule
-	Quota   int    `json:"quota"`
-	Window  int    `json:"window_ms"`
-	Keys    []int  `json:"keys"`    // key index of item i
-	Gaps    []int  `json:"gaps_ms"` // gap before item i
-	End     byte   `json:"end"`
-	Async   bool   `json:"async_source"`
-	Subs    int    `json:"subscriptions,omitempty"` // 2 = two subscriptions alive together on one limited observable
+	Impl   string `json:"impl"` // native | ulule
+	Quota  int    `json:"quota"`
+	Window int    `json:"window_ms"`
+	Keys   []int  `json:"keys"`    // key index of item i
+	Gaps   []int  `json:"gaps_ms"` // gap before item i
+	End    byte   `json:"end"`
+	Async  bool   `json:"async_source"`
+	Subs   int    `json:"subscriptions,omitempty"` // 2 = two subscriptions alive together on one limited observable
+	// ItemCtx: every item travels with a cancellable context of its own (as after
+	// ContextWithTimeout); the context of item #CancelItem is cancelled just before
+	// item #CancelAt is emitted. What a limiter does for the key of that item is its
+	// business (it may go silent); the other keys, the bound and the source's own
+	// ending are not affected.
+	ItemCtx    bool `json:"per_item_contexts,omitempty"`
+	CancelItem int  `json:"cancel_context_of_item,omitempty"`
+	CancelAt   int  `json:"cancel_before_item,omitempty"`
+	// CancelLag > 0: deadline-like, the context of every item i is cancelled just
+	// before item i+CancelLag is emitted.
+	CancelLag int `json:"cancel_every_context_after_items,omitempty"`
 }
 
 func init() {
@@ -137,11 +149,25 @@ func c20Run(tb rt.TB, t *testing.T, c c20Case) {
 		done := make(chan struct{})
 		var once sync.Once
 		key := func(it item) string { return it.Key }
+		cancels := make([]context.CancelFunc, len(c.Keys))
 		src := ro.NewObservable(func(d ro.Observer[item]) ro.Teardown {
 			play := func() {
 				for i, ki := range c.Keys {
 					if c.Gaps[i] > 0 {
 						time.Sleep(ms(c.Gaps[i]))
+					}
+					if c.ItemCtx {
+						if c.CancelLag > 0 {
+							if j := i - c.CancelLag; j >= 0 && cancels[j] != nil {
+								cancels[j]()
+							}
+						} else if i == c.CancelAt && c.CancelItem < i && cancels[c.CancelItem] != nil {
+							cancels[c.CancelItem]()
+						}
+						var ictx context.Context
+						ictx, cancels[i] = context.WithCancel(context.Background())
+						d.NextWithContext(ictx, item{Key: fmt.Sprintf("k%d", ki), N: i})
+						continue
 					}
 					d.Next(item{Key: fmt.Sprintf("k%d", ki), N: i})
 				}
@@ -278,6 +304,22 @@ func c20Gen(t *rapid.T, impl string) c20Case {
 	if impl == "native" && c.Async && rapid.IntRange(0, 2).Draw(t, "two") == 0 {
 		c.Subs = 2
 	}
+	if impl == "native" && c.Subs != 2 && n >= 2 && rapid.IntRange(0, 2).Draw(t, "itemCtx") == 0 {
+		c.ItemCtx = true
+		c.CancelItem = rapid.IntRange(0, n-2).Draw(t, "cancelItem")
+		c.CancelAt = rapid.IntRange(c.CancelItem+1, n-1).Draw(t, "cancelAt")
+		if rapid.Bool().Draw(t, "deadlines") {
+			c.CancelLag = rapid.IntRange(1, 3).Draw(t, "lag")
+			if rapid.Bool().Draw(t, "spaced") {
+				// room for whatever a cancelled context sets off to finish before the next item
+				for i := range c.Gaps {
+					if c.Gaps[i] == 0 {
+						c.Gaps[i] = 1
+					}
+				}
+			}
+		}
+	}
 	if impl == "ulule" {
 		if rapid.Bool().Draw(t, "longPeriod") {
 			c.Window = 0 // an hour: exact model
@@ -301,7 +343,13 @@ func TestC20_Native(t *testing.T) {
 	rapid.Check(t, func(rt2 *rapid.T) {
 		c := c20Gen(rt2, "native")
 		c20Run(rt2, currentT, c)
-		rt.Case(caseKey("rl", fmt.Sprint(c)), c20NonTrivial(c), "native", func() any { return c })
+		class := "native"
+		if c.CancelLag > 0 {
+			class = "native, every item's context cancelled a few items later"
+		} else if c.ItemCtx {
+			class = "native, one item's context cancelled mid-stream"
+		}
+		rt.Case(caseKey("rl", fmt.Sprint(c)), c20NonTrivial(c), class, func() any { return c })
 	})
 }
 
@@ -323,7 +371,6 @@ func TestC20_Ulule(t *testing.T) {
 		rt.Case(caseKey("rl", fmt.Sprint(c)), nt, "ulule", func() any { return c })
 	})
 }
-
 
 // Real-time stress of the native limiter: a hot key far over quota, tiny windows,
 // a fast producer. Only the order / duplicate / membership clauses are asserted
